@@ -1,6 +1,9 @@
 """E2: constant folding of expression nodes without importing the module."""
 import ast
 import operator
+import re as _re
+
+BUILTIN_TYPES = {"int": int, "str": str, "bool": bool, "float": float, "bytes": bytes, "list": list, "tuple": tuple, "dict": dict, "set": set}
 
 
 class NotConst(Exception):
@@ -46,11 +49,15 @@ def fold(node, env=None, ctors=()):
                 return env[n.id]
             if n.id in ("None", "True", "False"):
                 return {"None": None, "True": True, "False": False}[n.id]
+            if n.id in BUILTIN_TYPES:
+                return BUILTIN_TYPES[n.id]
             raise NotConst(n.id)
         if isinstance(n, ast.Attribute):
             t = ast.unparse(n)
             if t in env:
                 return env[t]
+            if t.startswith("re.") and t[3:].isupper() and hasattr(_re, t[3:]):
+                return getattr(_re, t[3:])
             raise NotConst(t)
         if isinstance(n, (ast.ListComp, ast.GeneratorExp, ast.SetComp)) and len(n.generators) == 1 and not n.generators[0].is_async:
             g = n.generators[0]
@@ -123,6 +130,21 @@ def fold(node, env=None, ctors=()):
             fn = ast.unparse(n.func)
             if fn in ctors:
                 return Struct(fn, [f(a) for a in n.args], {k.arg: f(k.value) for k in n.keywords if k.arg}, n)
+            if fn == "re.compile" and not n.keywords:
+                try:
+                    return _re.compile(*[f(a) for a in n.args])
+                except _re.error as e:
+                    raise NotConst(str(e))
+            if isinstance(n.func, ast.Attribute) and n.func.attr in ("match", "fullmatch", "search", "group", "groups", "groupdict", "start", "end") and not n.keywords:
+                try:
+                    recv = f(n.func.value)
+                except NotConst:
+                    recv = None
+                if isinstance(recv, (_re.Pattern, _re.Match)):
+                    try:
+                        return getattr(recv, n.func.attr)(*[f(a) for a in n.args])
+                    except (IndexError, TypeError, _re.error) as e:
+                        raise NotConst(str(e))
             if fn in ("len", "int", "ord", "chr", "list", "tuple", "sorted", "range", "set", "dict", "min", "max", "abs", "sum") and not n.keywords:
                 args = [f(a) for a in n.args]
                 try:
@@ -139,6 +161,12 @@ def fold(node, env=None, ctors=()):
                         return list(r) if n.func.attr in ("items", "keys", "values") else r
                     except Exception as e:
                         raise NotConst(str(e))
+            if fn in ("math.ceil", "math.floor", "ceil", "floor", "math.trunc") and len(n.args) == 1 and not n.keywords:
+                import math
+                try:
+                    return getattr(math, fn.split(".")[-1])(f(n.args[0]))
+                except (TypeError, ValueError, OverflowError) as e:
+                    raise NotConst(str(e))
             if fn in ("type", "isinstance", "bool", "str", "hex", "divmod", "round", "enumerate", "zip", "reversed", "any", "all") and not n.keywords:
                 args = [f(a) for a in n.args]
                 try:
@@ -222,7 +250,7 @@ class _Continue(Exception):
     pass
 
 
-def fold_body(stmts, env, ctors=(), calls=None, max_steps=20000):
+def fold_body(stmts, env, ctors=(), calls=None, max_steps=20000, final=None):
     """evaluate closed helper code (assignments, augmented assignments, if/else, for over constant sequences, return, raise)
     over a constant environment; returns the returned value, raises Raised(name) when the code raises, NotConst otherwise.
     `calls`: optional {call text: python callable} for sibling helpers."""
@@ -329,5 +357,9 @@ def fold_body(stmts, env, ctors=(), calls=None, max_steps=20000):
     try:
         run(stmts)
     except Returned as r:
+        if final is not None:
+            final.update(env)
         return r.value
+    if final is not None:
+        final.update(env)
     return None
